@@ -450,4 +450,7 @@ SKIP_LINES = [b"", b"   ", b"\t", b"label:", b"  loop_1:  ", b"section .text", b
               b"SECTION .data", b"Global Bar", b"x: ; y",
               # the same directives as nasm -E prints them and in other positions of the line
               b"[section .text]", b"[global main]", b"[SECTION .text] ; code", b"\t[ Global main ]", b".section .text", b"  section  .bss  ",
-              b"% define x 1", b"foo.bar:", b"a: b:", b"section", b"global", b"my_global_sym:", b"_start:  ; entry"]
+              b"% define x 1", b"foo.bar:", b"a: b:", b"section", b"global", b"my_global_sym:", b"_start:  ; entry",
+              # label names longer than a mnemonic (14 characters and more, up to the line limit), a blank in front of the colon
+              b"field_mul_done:", b"curve25519_mul_loop:", b".Lpoly1305_blocks_avx2_tail:", b"a" * 14 + b":", b"b" * 15 + b":  ; c",
+              b"  " + b"c" * 31 + b":", b"d" * 64 + b":", b"e" * 97 + b":", b"name :", b"_ZN4core3fmt9Formatter9write_str17h0123456789abcdefE:"]
